@@ -67,6 +67,10 @@ def apply_variant(sources: Dict[str, str], v: dict) -> Optional[Dict[str, str]]:
         from selftest.transforms import flip_else_module
 
         return {k: flip_else_module(t) for k, t in sources.items()}
+    if v.get("global") == "swap":
+        from selftest.transforms import swap_module
+
+        return {k: swap_module(t) for k, t in sources.items()}
     if v.get("global") == "hoist":
         from selftest.transforms import hoist_module
 
@@ -172,6 +176,8 @@ def run_for(prop: str, seed: int = 0, jobs: int = 16) -> dict:
                      "note": "every comparison written the other way round (a < b -> b > a, a == b -> b == a)"})
     variants.append({"property": prop, "id": "%s-flip-else" % prop, "kind": "silent", "rule": None, "edits": [], "global": "flip-else",
                      "note": "every if/else with a plain else block written with the negated test and the arms swapped"})
+    variants.append({"property": prop, "id": "%s-swap-independent-assignments" % prop, "kind": "silent", "rule": None, "edits": [], "global": "swap",
+                     "note": "adjacent independent call-free assignments exchanged"})
     for par in ("even", "odd"):
         variants.append({"property": prop, "id": "%s-rename-locals-%s-functions" % (prop, par), "kind": "silent", "rule": None, "edits": [], "global": "rename-%s" % par,
                          "note": "function-local variables renamed in every other function only (one-sided for sibling implementations)"})
